@@ -11,8 +11,11 @@ RULE = ("(1) DynamicIntegerPointsKdTreeEncoder<N>/Decoder<N> instantiated direct
         "shuffled copy of the input.  (2) whole streams from ExpertEncoder with POINT_CLOUD_KD_TREE_ENCODING (speeds 0..10, 1..120 points incl. "
         "duplicated and identical points, 1..4 attributes: float32 quantized 1..16 bits incl. explicit origin/range, uint8/16/32 and int8/16/32 "
         "with 1..9 components): model stream == real stream; every stream plus 2-4 corrupted variants through Decoder::DecodePointCloudFromBuffer "
-        "and the model decoder (accept/reject, every decoded value in decode order, unread bytes); search: the decoded cloud is the input "
-        "cloud under ONE permutation of the points for all attributes.  A case is distinct by its text")
+        "and the model decoder (accept/reject, every decoded value in decode order, unread bytes), also with SetSkipAttributeTransform for some "
+        "attribute types (portable uint32 values, the stream's unique id, attached quantization parameters) and with extreme signed varints "
+        "spliced into the trailing parameter block; the boundary of the signed-span guard (max - min = 2^31 - 1 must encode and round-trip, "
+        "2^31 must make the encode fail); search: the decoded cloud is the input cloud under ONE permutation of the points for all "
+        "attributes.  A case is distinct by its text")
 NEEDS = ["Model/KdTree.vo", "Base/DriverSupport.vo"]
 
 def corr_runs(ctx):
